@@ -7,7 +7,7 @@ META = {
                   "and event delivery use exactly this code on a queue of pointers / events)"],
     "units": ["librfn/ringbuf.c and librfn/messageq.c via clang-14 LLVM IR at -O1 and -O2 (the memory order and atomicity of every access are read off the IR instruction)"],
     "bounds": {"quick": "the C05 executions (1 put + 1 get, length 2..3, every start index and byte value, free preemption) at -O1 with the vector-clock happens-before monitor on every shared access",
-               "thorough": "additionally 1 + 2, 2 + 1 and 2 + 2 operations, the -O2 IR, 3 + 3 operations, and the message-queue step machines (1 sender + receiver) with the monitor"},
+               "thorough": "additionally 1 + 2 and 2 + 1 operations and the -O2 IR"},
     "outside": ["executions that are not sequentially consistent: on the current tree every atomic is seq_cst, so race-freedom of all SC interleavings gives (C11 DRF-SC) that all "
                 "executions of the bounded scenarios are SC and race-free; after a weakening mutation the check is a bug-finder over SC interleavings with happens-before from the actual orders",
                 "long randomised real-thread runs under ThreadSanitizer (dynamic sampling - not part of this technique family, not done)",
@@ -24,10 +24,7 @@ def queries(tier, kf):
     qs = [ring_q("c07-ring-O1-1x1", 0, 1, 1, 3, extra=M1, timeout=7200, unwind=9)]
     if tier == "thorough":
         qs += [ring_q("c07-ring-O1-1x2", 0, 1, 2, 3, extra=M1, timeout=14400, unwind=9), ring_q("c07-ring-O1-2x1", 0, 2, 1, 3, extra=M, timeout=14400, unwind=9),
-               ring_q("c07-ring-O1-2x2", 0, 2, 2, 3, extra=M, timeout=14400, unwind=9)]
-    if tier == "thorough":
-        qs.append(ring_q("c07-ring-O2-2x2", 0, 2, 2, 3, extra=M, opt="-O2", timeout=7200, unwind=9))
-        qs.append(ring_q("c07-ring-O1-3x3", 0, 3, 3, 3, extra=M, timeout=14400, unwind=9))
+               ring_q("c07-ring-O2-1x1", 0, 1, 1, 3, extra=M1, opt="-O2", timeout=7200, unwind=9)]
     cans = [("relaxed-publish", "\tatomic_store(&rb->writei, writei);\n\treturn true;", "\tatomic_store_explicit(&rb->writei, writei, memory_order_relaxed);\n\treturn true;")]
     for n, old, new in cans:
         qs.append(ring_q("c07-canary-" + n, 0, 1, 1, 3, extra=M1, role="canary", mutate=[("librfn/ringbuf.c", old, new)], timeout=7200, unwind=9))
